@@ -298,7 +298,9 @@ impl<'a> StylesheetParser<'a> for SassParser<'a> {
 
             first = false;
 
-            for _ in 3..(self.current_indentation - parent_indentation) {
+            // the indentation may have dropped below the comment's own (an empty
+            // first line followed by a dedent): no padding then
+            for _ in 3..self.current_indentation.saturating_sub(parent_indentation) {
                 buffer.add_char(' ');
             }
 
